@@ -457,12 +457,12 @@ func runC20(c *Ctx) int {
 		return 0
 	}
 	n := c.Pick(64, 2400)
-	progs := apiPrograms(c.Seed+2000, n, []string{"mixed", "buckets", "overwrite", "structural", "big"}, func(i int, cfg *gen.Config) {
+	progs := apiPrograms(c.Seed+2000, n, []string{"mixed", "buckets", "overwrite", "structural", "big", "bigkeys"}, func(i int, cfg *gen.Config) {
 		cfg.ROProbe = 0
 		cfg.Reopen = 0.2
 		cfg.Rollback = 0.15
 		cfg.Txs = 8
-		cfg.NoBigKeys = i%3 != 0
+		cfg.NoBigKeys = i%3 != 0 && cfg.Profile != "bigkeys"
 	})
 	dir := filepath.Join(c.Tmp, "progs")
 	_ = os.MkdirAll(dir, 0700)
